@@ -1288,11 +1288,7 @@ func c14Witnesses() []c14Witness {
 			if err := m.advanceTail(maxTo, nil, true, false); err != nil {
 				return err
 			}
-			err := m.drain()
-			if os.Getenv("C14_DEBUG") != "" {
-				fmt.Println(m.pr.calls)
-			}
-			return err
+			return m.drain()
 		}},
 	}
 }
